@@ -495,7 +495,11 @@ class TopCollector(ScoredCollector):
                 items.pop(i)
                 # Restore the heap invariant
                 heapify(items)
-                self.minscore = items[0][0] if items else 0
+                # The heap is only a threshold once it is full again
+                if len(items) >= self.limit:
+                    self.minscore = items[0][0]
+                else:
+                    self.minscore = 0
                 return
 
     def results(self):
